@@ -391,7 +391,11 @@ func (v *value) updateUintValue() error {
 			left, right = rng.GetDeltaMin(), rng.GetDeltaMax()
 			newval = val.Value
 		}
-		tmpVal := int64(newval) + v.r.Int63n(right-left+1) + left
+		n := right - left + 1
+		if n <= 0 {
+			return fmt.Errorf("range width overflows int64 in UintRange for %q", v.v)
+		}
+		tmpVal := int64(newval) + v.r.Int63n(n) + left
 		if tmpVal < 0 {
 			newval = rng.Minimum
 		} else {
